@@ -5,23 +5,9 @@ import (
 	"testing"
 	"time"
 
-	"github.com/dapr/kit/cron"
-
 	"verifharness/refcron"
 	"verifharness/vk"
 )
-
-// safeParse turns a panic of Parse into a value (a panic is a failure of the
-// refusal property, reported with the whole case).
-func safeParse(o optSet, text string) (s cron.Schedule, err error, panicked any) {
-	defer func() {
-		if r := recover(); r != nil {
-			panicked = r
-		}
-	}()
-	s, err = o.parse(text)
-	return
-}
 
 // Regression inputs of the defects this check found in the pinned tree (see
 // KNOWN_FINDINGS.txt, "fixed: property=C04"). Expected instants are written by
